@@ -18,6 +18,7 @@ import (
 	"github.com/ucan-wg/go-ucan/pkg/args"
 	"github.com/ucan-wg/go-ucan/pkg/command"
 	"github.com/ucan-wg/go-ucan/pkg/meta"
+	"github.com/ucan-wg/go-ucan/pkg/policy/limits"
 	"github.com/ucan-wg/go-ucan/token/delegation"
 	"github.com/ucan-wg/go-ucan/token/internal/nonce"
 	"github.com/ucan-wg/go-ucan/token/internal/parse"
@@ -226,6 +227,16 @@ func (t *Token) validate() error {
 
 	if len(t.nonce) < 12 {
 		errs = errors.Join(errs, fmt.Errorf("token nonce too small"))
+	}
+
+	// timestamps are 53-bits integers on the wire: what cannot be read
+	// back must not be accepted here
+	if t.expiration != nil && (t.expiration.Unix() > limits.MaxInt53 || t.expiration.Unix() < limits.MinInt53) {
+		errs = errors.Join(errs, fmt.Errorf("Expiration exceeds safe integer bounds: %d", t.expiration.Unix()))
+	}
+
+	if t.invokedAt != nil && (t.invokedAt.Unix() > limits.MaxInt53 || t.invokedAt.Unix() < limits.MinInt53) {
+		errs = errors.Join(errs, fmt.Errorf("InvokedAt exceeds safe integer bounds: %d", t.invokedAt.Unix()))
 	}
 
 	return errs
